@@ -212,7 +212,7 @@ var MapRichDocs = []string{
 }
 
 // InstanceTexts for C14 (each also in two non-canonical representations).
-var InstanceTexts = []string{`{"a":1,"b":1,"c":1,"ab":1}`, `{"a":1,"b":"s","q1":1,"zz":1}`, `[2,9,7]`, `[9,1]`, `[1,9]`, `{"p":9,"q":1}`, `{"q":2,"p":9}`, `[2,2]`, `{"a":"ab","b":1,"c":[1,2]}`, `{"c":1,"a":"x"}`, `[{"b":1,"a":2},{"a":2,"b":1}]`, `[{"a":1,"c":2},{"b":1,"d":2}]`, `1`, `"a"`, `{"b":"s","a":1,"ab":2}`, `[3,1,2]`, `{"p":{},"q":[9]}`, `null`}
+var InstanceTexts = []string{`["b","a","c"]`, `[3,1,2,1]`, `{"a":1,"b":1,"c":1,"ab":1}`, `{"a":1,"b":"s","q1":1,"zz":1}`, `[2,9,7]`, `[9,1]`, `[1,9]`, `{"p":9,"q":1}`, `{"q":2,"p":9}`, `[2,2]`, `{"a":"ab","b":1,"c":[1,2]}`, `{"c":1,"a":"x"}`, `[{"b":1,"a":2},{"a":2,"b":1}]`, `[{"a":1,"c":2},{"b":1,"d":2}]`, `1`, `"a"`, `{"b":"s","a":1,"ab":2}`, `[3,1,2]`, `{"p":{},"q":[9]}`, `null`}
 
 type result struct {
 	marshal string
@@ -241,6 +241,10 @@ func Run(r *ev.Run) {
 			a, b := rs[len(rs)/3], rs[2*len(rs)/3]
 			insts = append(insts, inst{func() any { return a.V }, a.Desc}, inst{func() any { return b.V }, b.Desc})
 		}
+	}
+	for _, x := range typedInstances() {
+		x := x
+		insts = append(insts, inst{func() any { return x }, gen.Describe(x)})
 	}
 	depth := 3
 	if thorough {
@@ -300,7 +304,12 @@ func Run(r *ev.Run) {
 					b.WriteByte('E')
 					continue
 				}
-				ok, p := drive.Verdict(rs1, in.x())
+				x := in.x()
+				before := Snapshot(x)
+				ok, p := drive.Verdict(rs1, x)
+				if after := Snapshot(x); after != before {
+					r.Fail(key+" Validate("+in.desc+") [instance modified]", map[string]any{"class": "Validate modified the instance", "before": before, "after": after})
+				}
 				switch {
 				case p != "":
 					b.WriteByte('P')
@@ -438,6 +447,13 @@ func Run(r *ev.Run) {
 	if r.OnlyKey == "" || true {
 		envrun.Explore(r, "ENV", "c14env", "env", 16)
 	}
+}
+
+// typedInstances are unsorted typed slices and maps (one object each, shared by every call of a
+// history: an operation that reorders or edits them is seen by the snapshot and by later verdicts).
+func typedInstances() []any {
+	return []any{[]string{"b", "a", "c", "a"}, []string{"z", "y"}, gen.MySlice{"b", "a", 2.0, 1.0}, []int{3, 1, 2, 1}, []float64{2.5, 1.5, 0.5}, []gen.MyStr{"b", "a"},
+		map[string][]string{"p": {"y", "x"}, "q": {"b", "a"}}, []any{[]string{"d", "c"}, []int{2, 1}}}
 }
 
 // loaderHistories: documents handed out by a caching Loader (the same *Schema for every request,
@@ -611,6 +627,10 @@ func digestMode(r *ev.Run) {
 			a, b := rs[len(rs)/3], rs[2*len(rs)/3]
 			insts = append(insts, func() any { return a.V }, func() any { return b.V })
 		}
+	}
+	for _, x := range typedInstances() {
+		x := x
+		insts = append(insts, func() any { return x })
 	}
 	table := make([]string, len(subs))
 	par.For(len(subs), nil, func(si int, j par.Journal) {
